@@ -619,26 +619,41 @@ func (w *w1) opMultiProduce(client, seq int, op simrt.Op) {
 	req.Version = int16(w.cfg("produce_version", 9))
 	req.Acks = acks
 	req.TimeoutMillis = 5000
-	rt := kmsg.NewProduceRequestTopic()
-	rt.Topic = topic
 	var recs []*produceRec
-	for i := int32(0); i < w.nparts; i++ {
-		part := i
-		if op.B%2 == 1 {
-			part = w.nparts - 1 - i
+	topicsOfReq := []string{topic}
+	if op.B&2 != 0 {
+		// every partition of EVERY topic in one request: the same partition numbers under different topics
+		topicsOfReq = nil
+		seenT := map[string]bool{}
+		for _, t := range w.topics {
+			if !seenT[t] {
+				seenT[t] = true
+				topicsOfReq = append(topicsOfReq, t)
+			}
 		}
-		sent, markers := w.buildBatch(client, seq+1000000*int(part+1), nrec, valLen)
-		rec := &produceRec{client: client, seq: seq, topic: topic, part: part, acks: acks, sent: sent, markers: markers, nrec: nrec, multi: true, order: int(i)}
-		rec.invoke = w.sim.Step()
-		rec.inc = n.inc
-		w.ledger = append(w.ledger, rec)
-		recs = append(recs, rec)
-		rp := kmsg.NewProduceRequestTopicPartition()
-		rp.Partition = part
-		rp.Records = sent
-		rt.Partitions = append(rt.Partitions, rp)
+		w.sim.Probe("w1.multi-topic-produce")
 	}
-	req.Topics = append(req.Topics, rt)
+	for ti, topic := range topicsOfReq {
+		rt := kmsg.NewProduceRequestTopic()
+		rt.Topic = topic
+		for i := int32(0); i < w.nparts; i++ {
+			part := i
+			if op.B%2 == 1 {
+				part = w.nparts - 1 - i
+			}
+			sent, markers := w.buildBatch(client, seq+1000000*int(part+1)+100000000*ti, nrec, valLen)
+			rec := &produceRec{client: client, seq: seq, topic: topic, part: part, acks: acks, sent: sent, markers: markers, nrec: nrec, multi: true, order: ti*int(w.nparts) + int(i)}
+			rec.invoke = w.sim.Step()
+			rec.inc = n.inc
+			w.ledger = append(w.ledger, rec)
+			recs = append(recs, rec)
+			rp := kmsg.NewProduceRequestTopicPartition()
+			rp.Partition = part
+			rp.Records = sent
+			rt.Partitions = append(rt.Partitions, rp)
+		}
+		req.Topics = append(req.Topics, rt)
+	}
 	w.sim.Probe("w1.multi-partition-produce")
 	_, _ = n.callT(req, fmt.Sprintf("c%d", client), func(task string) {
 		for _, rec := range recs {
